@@ -630,6 +630,7 @@ class DefTr:
         self.bools = dict(bools)      # python name -> lean term : Bool
         self.alias = {}               # local alias of a field
         self.pairvars = {}            # python name -> (o term, p term)
+        self.ret = None               # lean term of the returned list of names (None: the method returns None)
 
     def field(self, node):
         try:
@@ -672,9 +673,14 @@ class DefTr:
 
     def block(self, stmts, ind, loc):
         if not stmts:
+            if self.ret is not None:
+                return [ind + '.ok ((⟨objs, props, pairs⟩ : Defn), %s)' % self.ret]
             return [ind + '.ok (⟨objs, props, pairs⟩ : Defn)']
         st, rest = stmts[0], stmts[1:]
         go = lambda line: [ind + line] + self.block(rest, ind, loc)      # noqa: E731
+        if isinstance(st, ast.Return) and not rest and isinstance(st.value, ast.Name) and st.value.id in self.lists:
+            self.ret = self.lists[st.value.id]
+            return self.block([], ind, loc)
         if isinstance(st, ast.If):
             t = ast.unparse(st.test)
             if t == 'isinstance(pair, int)':          # well-typed arguments only
@@ -693,6 +699,29 @@ class DefTr:
                 self.pairvars['pair'] = (a, b)
                 self.names[a], self.names[b] = a, b
                 return self.block(rest, ind, loc)
+            if isinstance(tgt, ast.Name) and isinstance(v, ast.SetComp) and len(v.generators) == 1 and not v.generators[0].ifs:
+                g = v.generators[0]          # {o for o, _ in self._pairs}: the names occurring in a true cell
+                if (isinstance(g.target, ast.Tuple) and len(g.target.elts) == 2 and all(isinstance(e, ast.Name) for e in g.target.elts)
+                        and self.field(g.iter) == 'pairs' and isinstance(v.elt, ast.Name)
+                        and v.elt.id in [e.id for e in g.target.elts]):
+                    a, b = (e.id for e in g.target.elts)
+                    self.lists[tgt.id] = tgt.id
+                    return go('let %s := pairs.map fun (%s, %s) => %s' % (tgt.id, a, b, v.elt.id))
+                raise Decline('unsupported set comprehension %s' % ast.unparse(v))
+            if isinstance(tgt, ast.Name) and isinstance(v, ast.ListComp) and len(v.generators) == 1 and len(v.generators[0].ifs) == 1:
+                g = v.generators[0]          # [o for o in self._objects if o not in nonempty]
+                c = g.ifs[0]
+                if (isinstance(g.target, ast.Name) and isinstance(v.elt, ast.Name) and v.elt.id == g.target.id
+                        and isinstance(c, ast.Compare) and len(c.ops) == 1 and isinstance(c.ops[0], (ast.In, ast.NotIn))
+                        and isinstance(c.left, ast.Name) and c.left.id == g.target.id
+                        and isinstance(c.comparators[0], ast.Name) and c.comparators[0].id in self.lists):
+                    t = '%s.contains %s' % (self.lists[c.comparators[0].id], g.target.id)
+                    if isinstance(c.ops[0], ast.NotIn):
+                        t = '!(%s)' % t
+                    src = self.namelist(g.iter)
+                    self.lists[tgt.id] = tgt.id
+                    return go('let %s := %s.filter fun %s => %s' % (tgt.id, src, g.target.id, t))
+                raise Decline('unsupported list comprehension %s' % ast.unparse(v))
             if isinstance(tgt, ast.Name):
                 try:
                     f = self.field(v)
@@ -775,6 +804,16 @@ class DefTr:
                         src = self.namelist(g.generators[0].iter)
                         return go('let pairs := %s.foldl (fun acc %s => pAdd acc %s) pairs' % (src, v, self.pair(g.elt, dict(loc, **{v: v}))))
             raise Decline('unsupported call %s' % ast.unparse(st))
+        if (isinstance(st, ast.For) and not st.orelse and isinstance(st.target, ast.Name) and len(st.body) == 1
+                and isinstance(st.body[0], ast.Expr) and isinstance(st.body[0].value, ast.Call)
+                and isinstance(st.body[0].value.func, ast.Attribute) and st.body[0].value.func.attr == 'remove'
+                and isinstance(st.iter, ast.Name) and st.iter.id in self.lists):
+            v = st.target.id
+            call = st.body[0].value
+            f = self.field(call.func.value)
+            if f in ('objs', 'props') and [ast.unparse(a) for a in call.args] == [v]:
+                return go('let %s ← %s.foldlM (fun acc %s => uRemove acc %s) %s' % (f, self.lists[st.iter.id], v, v, f))
+            raise Decline('unsupported removal loop %s' % ast.unparse(st)[:60])
         if isinstance(st, ast.For) and not st.orelse and isinstance(st.target, ast.Name):
             v = st.target.id
             src = self.namelist(st.iter)
@@ -811,6 +850,8 @@ def gen_defn():
         ('rename_property', ['self', 'old', 'new'], '(old new : Name)', dict(names={'old': 'old', 'new': 'new'}, lists={}, bools={})),
         ('remove_object', ['self', 'obj'], '(obj : Name)', dict(names={'obj': 'obj'}, lists={}, bools={})),
         ('remove_property', ['self', 'prop'], '(prop : Name)', dict(names={'prop': 'prop'}, lists={}, bools={})),
+        ('remove_empty_objects', ['self'], '', dict(names={}, lists={}, bools={})),
+        ('remove_empty_properties', ['self'], '', dict(names={}, lists={}, bools={})),
         ('union_update', ['self', 'other', 'ignore_conflicts'], '(other : Defn) (ignore_conflicts : Bool)', dict(names={}, lists={}, bools={})),
         ('intersection_update', ['self', 'other', 'ignore_conflicts'], '(other : Defn) (ignore_conflicts : Bool)', dict(names={}, lists={}, bools={})),
     ]
@@ -826,8 +867,9 @@ def gen_defn():
         tr = DefTr(**kw)
         lines = tr.block(_nodoc(m.body), '  ', {})
         lean_name = 'defn_' + name.strip('_')
+        rtype = 'Defn' if tr.ret is None else '(Defn × List Name)'
         out += ['/-- `Definition.%s` -/' % name,
-                'def %s (objs props : List Name) (pairs : List (Name × Name)) %s : Except Err Defn := do' % (lean_name, params)] + lines + ['']
+                'def %s (objs props : List Name) (pairs : List (Name × Name)) %s : Except Err %s := do' % (lean_name, params, rtype)] + lines + ['']
     return '\n'.join(out + ['end FCA.Generated', ''])
 
 
